@@ -71,7 +71,8 @@ Semantics given to it (the trusted part of this translator):
     external named by the chain; a constant of another crate is an external value; for a free
     function the group's "state_param" names the parameter that plays the part of self (a
     `&mut ChannelSlot`, a `&Sender<T>` standing for the queue behind it), and "self_methods" its
-    methods that are stateful externals;
+    methods that are stateful externals; the fields named in "cells" are `Cell`s: `self.f.get()`
+    reads the field, `self.f.set(e)` rebinds it (a `&self` method of such a group changes self);
   * `as usize` / `as u64` casts are dropped (u64 -> usize is the identity on the 64-bit targets the
     crate is built for here); Vec::with_capacity(n) is the empty vector (capacity is not
     observable); `.clone()` and `&` / `*` are the identity on values.
@@ -264,6 +265,13 @@ class Parser:
                 e = self.expr()
                 self.eat(";")
                 stmts.append(("assign", x, ("add" if op == "+" else "sub", ("var", x), e)))
+                continue
+            # self.f.set(e);   (a Cell)
+            if tok == "self" and self.peek(1) == "." and self.peek(3) == "." and self.peek(4) == "set" and self.peek(5) == "(":
+                self.eat(); self.eat(); f = self.eat(); self.eat("."); self.eat("set"); self.eat("(")
+                e = self.expr()
+                self.eat(")"); self.eat(";")
+                stmts.append(("setfield", f, e))
                 continue
             # x.truncate(n);
             if self.peek(1) == "." and self.peek(2) == "truncate" and self.peek(3) == "(":
@@ -664,6 +672,7 @@ class Gen:
         self.stcalls = set()
         self.stcalls = set()
         self.selfmethods = set()
+        self.cells = set()
         self.ty = " * ".join(["val"] * (len(threaded) + 1))
 
     def fresh(self, base):
@@ -748,6 +757,8 @@ class Gen:
             if recv[0] == "var" and recv[1] in self.effects:
                 raise Fail("effect call %s.%s used as a value" % (recv[1], m))
             if m == "clone" and not args:
+                return self.e(recv, env)
+            if m == "get" and not args and recv[0] == "field" and recv[1] == ("var", "self") and recv[2] in self.cells:
                 return self.e(recv, env)
             if m == "len" and not args:
                 return "(v_len %s)" % self.e(recv, env)
@@ -1160,7 +1171,7 @@ class Gen:
         raise Fail("pattern %r" % (p,))
 
 
-def translate(src, name, calls, effects, chans=(), mutcalls=None, handles=(), fuelcalls=None, stcalls=(), state_param=None, selfmethods=()):
+def translate(src, name, calls, effects, chans=(), mutcalls=None, handles=(), fuelcalls=None, stcalls=(), state_param=None, selfmethods=(), cells=()):
     fn_only = name.split(".")[-1]
     toks = tokenize(find_fn(src, name))
     if state_param and state_param.get(name):
@@ -1174,6 +1185,9 @@ def translate(src, name, calls, effects, chans=(), mutcalls=None, handles=(), fu
     fname, params, mutself, body = p.fn()
     if state_param and state_param.get(name):
         mutself = True
+    if cells and "self" in params:
+        # interior mutability: a `&self` method that writes Cells of self changes self
+        mutself = True
     cname = "gen_" + name.replace(".", "_")
     threaded = (["self"] if mutself else []) + [x for x in params if x in effects]
     if mutcalls is not None and threaded == ["self"]:
@@ -1183,6 +1197,7 @@ def translate(src, name, calls, effects, chans=(), mutcalls=None, handles=(), fu
     g.fuelcalls = fuelcalls if fuelcalls is not None else set()
     g.stcalls = set(stcalls)
     g.selfmethods = set(selfmethods)
+    g.cells = set(cells)
     env = {x: x for x in params}
     text = g.block(body, env, lambda env2, v: g.ret(v, env2))
     ty = " * ".join(["val"] * (len(threaded) + 1))
@@ -1229,6 +1244,7 @@ if __name__ == "__main__":
     stcalls = spec.get("stateful_calls", [])
     state_param = spec.get("state_param", {})
     selfmethods = spec.get("self_methods", [])
+    cells = spec.get("cells", [])
     mutcalls = set()
     fuelcalls = set()
     out = [HEADER % ", ".join(sorted(set(p for p, _ in fns)))]
@@ -1238,7 +1254,7 @@ if __name__ == "__main__":
         # a call may only go to a function translated before it
         avail = {m: c for m, c in calls.items() if c in done}
         try:
-            out.append("(* ---- %s :: %s ---- *)\n" % (path, n) + translate(open(path).read(), n, avail, effects, chans, mutcalls, handles, fuelcalls, stcalls, state_param, selfmethods))
+            out.append("(* ---- %s :: %s ---- *)\n" % (path, n) + translate(open(path).read(), n, avail, effects, chans, mutcalls, handles, fuelcalls, stcalls, state_param, selfmethods, cells))
             done.add("gen_" + n.replace(".", "_"))
         except (Fail, OSError) as ex:
             ok = False
